@@ -470,6 +470,9 @@ impl Prop for C16 {
             profile: || Profile {
                 kind_weights: [25, 25, 8, 7, 35],
                 depth_weights: [55, 30, 10, 5],
+                // headers listing fewer L1 entries than needed: the first write beyond them
+                // rewrites the header (in-place growth only, see C12's known finding)
+                l1_short_pct: 20,
                 ..Profile::default()
             },
             cfg: || SeqCfg {
@@ -488,6 +491,12 @@ impl Prop for C16 {
             tweak: |c, raw, _, _| {
                 // a backend without hole punching (every punch request is refused): the library
                 // falls back to writing zeros, and those writes have to be aligned as well
+                if super::c12::l1_short_overflows(c) {
+                    if let crate::case::LayerSpec::Built(b) = &mut c.layers[0] {
+                        b.l1_short = false;
+                        c.excluded.push(super::c12::K_L1_GROWTH.to_string());
+                    }
+                }
                 if raw.head.last().copied().unwrap_or(0) % 100 < 35 {
                     c.faults = Some(crate::sim::FaultPlan {
                         punch_unsupported: true,
